@@ -345,7 +345,7 @@ def run_cases(cases: list[dict], cfg: dict, out: Outcome, label: str) -> None:
         out.evaluations += len(ops)
         out.count(f"{label}:cases")
         out.count(f"{label}:ops", len(ops))
-        out.count(f"{label}:graph:{case.get('kind', '?')}")
+        out.count(f"{label}:graph:{case.get('shape', '?')}")
         if info["overlapped"]:
             out.count(f"{label}:overlapping")
         for rec in info["tasks"]:
@@ -378,63 +378,79 @@ def gen_case(rng: random.Random, style: str | None = None, max_tasks: int = 4) -
     ntasks = rng.randint(1, max_tasks)
     ch = Chooser(rng, g, ntasks, style)
     ops = RL.explore_direct(g, ch)
-    return {"g": g, "ops": ops, "kind": kind, "style": style}
+    return {"g": g, "ops": ops, "shape": kind, "style": style}
 
 
 # --------------------------------------------------------------------------
 # workflow-level case
 
 
-def run_wf_case(case: dict, cfg: dict, out: Outcome) -> None:
-    lines, ops, info = RL.run_workflow(case)
-    g = case["g"]
-    info["overlapped"] = overlapped(lines)
-    out.evaluations += len(ops)
-    out.count("workflow:cases")
-    out.count("workflow:invocations", len(info["tasks"]))
-    if info["overlapped"]:
-        out.count("workflow:overlapping")
-    out.count("workflow:result:" + info["result"].split(":")[0])
-    out.nontrivial(("wf", g, case["workers"], ops))
-    out.sample({"graph": RL.graph_line(g), "workers": case["workers"], "ops": [RL.op_line(o) for o in ops][:8], "result": info["result"]}, cap=10)
-    mlines = [cfg_line(cfg), RL.graph_line(g)] + [RL.op_line(o) for o in ops]
-
-    # The engine starts workers while a lock hand-off chain is still in progress, so op boundaries fall
-    # differently than in the model (which runs woken waiters at once); the order of events is the same.
-    # Compare the flattened event stream -- up to the first failing invocation, after which the engine
-    # cancels the other workers (the model has no cancellation) -- and, without a failure, the final state.
-    empty = {t for t, rec in enumerate(info["tasks"]) if not rec["reqs"]}  # never wait, never resolve
-
-    def flat(ls: list[str]) -> tuple[list[str], bool]:
-        toks: list[str] = []
-        for l in ls:
-            for tok in l.split(" | ")[0].split(" "):
-                if tok and int(tok.split(":")[1]) not in empty:
-                    toks.append(tok)
-                    if tok.startswith("fin:") and tok.split(":")[2] != "ok":
-                        return toks, True
-        return toks, False
-
+def run_wf_cases(cases: list[dict], cfg: dict, out: Outcome) -> None:
+    """Real workflow runs, one batched model run, flattened comparison + monitors."""
+    real = []
+    mlines: list[str] = []
+    for case in cases:
+        lines, ops, info = RL.run_workflow(case)
+        info["overlapped"] = overlapped(lines)
+        real.append((case, lines, ops, info))
+        mlines += [cfg_line(cfg), RL.graph_line(case["g"])] + [RL.op_line(o) for o in ops]
     try:
-        mo = Driver("resource").run(mlines)[2:]
-        out.traces_validated += 1
-        rt, rfail = flat(lines)
-        mt, mfail = flat(mo)
-        if not rfail and not mfail and lines and mo:
-            rt.append("final " + lines[-1].split(" | ", 1)[1])
-            mt.append("final " + mo[-1].split(" | ", 1)[1])
-        out.disagreements_checked += len(rt)
-        d = diff_streams("resource-workflow", rt, mt, rt, context=case)
-        if d is not None and not out.divergences:
-            out.divergences.append(d)
+        mo_all: list[str] | None = Driver("resource").run(mlines) if mlines else []
     except Exception as ex:
-        out.divergences.append(Divergence("resource-workflow", 0, "<driver>", repr(ex), "", case))
-    for sig, what in monitor(g, info, info["all_opened"], None):
-        out.violations.append(Violation(sig, what, {"kind": "workflow", **case}))
-    if info["result"].startswith("error:") and all(wellfounded(g)) and not any(r["f"] for r in g):
-        out.violations.append(Violation(
-            "C22/workflow_failed" + ("[concurrent]" if info["overlapped"] else "[sequential]"),
-            f"workflow over an acyclic graph of non-raising factories failed: {info['result']}", {"kind": "workflow", **case}))
+        out.divergences.append(Divergence("resource-workflow", 0, "<driver>", repr(ex), ""))
+        mo_all = None
+    pos = 0
+    for case, lines, ops, info in real:
+        g = case["g"]
+        n = 2 + len(ops)
+        out.evaluations += len(ops)
+        out.count("workflow:cases")
+        out.count("workflow:invocations", len(info["tasks"]))
+        if info["overlapped"]:
+            out.count("workflow:overlapping")
+        out.count("workflow:result:" + info["result"].split(":")[0])
+        out.nontrivial(("wf", g, case["workers"], ops))
+        out.sample({"graph": RL.graph_line(g), "workers": case["workers"], "ops": [RL.op_line(o) for o in ops][:8],
+                    "result": info["result"]}, cap=10)
+        # The engine starts workers while a lock hand-off chain is still in progress, so op boundaries fall
+        # differently than in the model driver (which runs woken waiters at once); the order of events is the
+        # same.  Compare the flattened event stream -- up to the first failing invocation, after which the engine
+        # cancels the other workers (the model has no cancellation) -- and, without a failure, the final state.
+        empty = {t for t, rec in enumerate(info["tasks"]) if not rec["reqs"]}  # never wait, never resolve
+
+        def flat(ls: list[str]) -> tuple[list[str], bool]:
+            toks: list[str] = []
+            for l in ls:
+                for tok in l.split(" | ")[0].split(" "):
+                    if tok and int(tok.split(":")[1]) not in empty:
+                        toks.append(tok)
+                        if tok.startswith("fin:") and tok.split(":")[2] != "ok":
+                            return toks, True
+            return toks, False
+
+        if mo_all is not None:
+            mo = mo_all[pos + 2: pos + n]
+            out.traces_validated += 1
+            rt, rfail = flat(lines)
+            mt, mfail = flat(mo)
+            if not rfail and not mfail and lines and mo and " | " in mo[-1]:
+                rt.append("final " + lines[-1].split(" | ", 1)[1])
+                mt.append("final " + mo[-1].split(" | ", 1)[1])
+            out.disagreements_checked += len(rt)
+            d = diff_streams("resource-workflow", rt, mt, rt, context=case)
+            if d is not None and not out.divergences:
+                out.divergences.append(d)
+        pos += n
+        for sig, what in monitor(g, info, info["all_opened"], None):
+            out.violations.append(Violation(sig, what, {"kind": "workflow", **case}))
+        if info["result"].startswith("error:") and all(wellfounded(g)) and not any(r["f"] for r in g):
+            out.violations.append(Violation(
+                "C22/workflow_failed" + ("[concurrent]" if info["overlapped"] else "[sequential]"),
+                f"workflow over an acyclic graph of non-raising factories failed: {info['result']}", {"kind": "workflow", **case}))
+
+
+def run_wf_case(case: dict, cfg: dict, out: Outcome) -> None:
+    run_wf_cases([case], cfg, out)
 
 
 def gen_wf_case(rng: random.Random) -> dict:
@@ -453,7 +469,7 @@ def gen_wf_case(rng: random.Random) -> dict:
         workers.append({"reqs": reqs, "num_workers": rng.choice([1, 2, 3, 4]), "count": rng.randint(1, 4)})
     order = [i for i, w in enumerate(workers) for _ in range(w["count"])]
     rng.shuffle(order)
-    return {"g": g, "workers": workers, "order": order, "seed": rng.randrange(1 << 30), "kind": kind}
+    return {"g": g, "workers": workers, "order": order, "seed": rng.randrange(1 << 30), "shape": kind}
 
 
 # --------------------------------------------------------------------------
@@ -491,10 +507,11 @@ def run(env: Env) -> Outcome:
             run_any(env.replay["payload"]["case"], cfg, out, "replay")
         except KeyError:
             pass
-    for c in load_corpus():
-        run_any(c, cfg, out, "corpus")
+    corpus = load_corpus()
+    run_cases([c for c in corpus if "workers" not in c], cfg, out, "corpus")
+    run_wf_cases([c for c in corpus if "workers" in c], cfg, out)
     rng = random.Random(env.rng.randrange(1 << 30))
-    n1, n2 = env.budget(700, 14000), env.budget(100, 2000)
+    n1, n2 = env.budget(1500, 30000), env.budget(200, 4000)
     for lo in range(0, n1, 500):
         run_cases([gen_case(rng) for _ in range(min(500, n1 - lo))], cfg, out, "direct")
     for lo in range(0, n2, 500):
@@ -510,6 +527,7 @@ def run(env: Env) -> Outcome:
     except Exception as ex:
         out.divergences.append(Divergence("resource", 0, "<driver>", repr(ex), ""))
     wrng = random.Random(env.rng.randrange(1 << 30))
-    for _ in range(env.budget(40, 800)):
-        run_wf_case(gen_wf_case(wrng), cfg, out)
+    nw = env.budget(80, 1600)
+    for lo in range(0, nw, 200):
+        run_wf_cases([gen_wf_case(wrng) for _ in range(min(200, nw - lo))], cfg, out)
     return out
